@@ -138,6 +138,22 @@ func vItems(r DequeueResponse, e error) string {
 	return out
 }
 
+func vList(items []Envelope, e error) string {
+	out := fmt.Sprint(e != nil)
+	for _, it := range items {
+		out += fmt.Sprintf("|%s,%s,%s,%s,%d,%d,%d,%q,%v,%v,%d,%q", it.ID, it.Route, it.Target, it.State, it.Attempt, it.ReceivedAt.UnixNano(), it.NextRunAt.UnixNano(), it.Payload, it.Headers, it.Trace, it.SchemaVersion, it.DeadReason)
+	}
+	return out
+}
+
+func vStats(st Stats, e error) string {
+	out := fmt.Sprint(e, st.Total, st.ByState, st.OldestQueuedReceivedAt.UnixNano(), st.EarliestQueuedNextRun.UnixNano(), st.OldestQueuedAge, st.ReadyLag)
+	for _, b := range st.TopQueued {
+		out += fmt.Sprintf("|%s,%s,%d,%d,%d,%v,%v", b.Route, b.Target, b.Queued, b.OldestQueuedReceivedAt.UnixNano(), b.EarliestQueuedNextRun.UnixNano(), b.OldestQueuedAge, b.ReadyLag)
+	}
+	return out
+}
+
 func vErr(e error) string {
 	if e != nil && strings.Contains(e.Error(), "UNIQUE constraint") {
 		return ErrEnvelopeExists.Error() // the real driver's typed constraint error is mapped by mapQueueInsertError
@@ -189,7 +205,8 @@ func TestVerifSQLModelDifferential(t *testing.T) {
 	dir := t.TempDir()
 	base := int64(1700000000) * 1e9
 	steps, changed, refused := 0, 0, 0
-	changedByOp := make([]int, 16)
+	changedByOp := make([]int, 23)
+	ranByOp := make([]int, 23)
 	for it := 0; it < iters; it++ {
 		now := time.Unix(0, base+int64(rng.Intn(7)))
 		clock := func() time.Time { return now }
@@ -276,7 +293,17 @@ func TestVerifSQLModelDifferential(t *testing.T) {
 			d := time.Duration(rng.Intn(5) - 1)
 			l1, l2 := leaseMenu[rng.Intn(len(leaseMenu))], leaseMenu[rng.Intn(len(leaseMenu))]
 			i1, i2 := idMenu[rng.Intn(len(idMenu))], idMenu[rng.Intn(len(idMenu))]
-			op := rng.Intn(16)
+			op := rng.Intn(23)
+			listState := []State{"", StateQueued, StateLeased, StateDead, StateCanceled, StateDelivered}[rng.Intn(6)]
+			listOrder := []string{"", "asc", "desc", " ASC "}[rng.Intn(4)]
+			listLimit := rng.Intn(4)
+			var cursor time.Time
+			if rng.Intn(2) == 1 {
+				cursor = time.Unix(0, base+int64(rng.Intn(6)))
+			}
+			incP, incH, incT := rng.Intn(2) == 1, rng.Intn(2) == 1, rng.Intn(2) == 1
+			manageState := []State{"", StateQueued, StateDead, StateCanceled, StateLeased}[rng.Intn(5)]
+			preview := rng.Intn(4) == 0
 			route := []string{"", "r0", "r1"}[rng.Intn(3)]
 			batch := 1 + rng.Intn(3)
 			newID := []string{"m0", "m1", "n1", "n2"}[rng.Intn(4)]
@@ -319,6 +346,27 @@ func TestVerifSQLModelDifferential(t *testing.T) {
 					return vItems(s.Dequeue(DequeueRequest{Route: route, Batch: batch, LeaseTTL: time.Duration(1 + rng.Intn(1))}))
 				case 14:
 					return vErr(s.Enqueue(Envelope{ID: newID, Route: "r0", Target: "t0", Payload: []byte("q")}))
+				case 16:
+					r, e := s.ListMessages(MessageListRequest{Route: route, State: listState, Order: listOrder, Limit: listLimit, Before: cursor, IncludePayload: incP, IncludeHeaders: incH, IncludeTrace: incT})
+					return vList(r.Items, e)
+				case 17:
+					r, e := s.ListDead(DeadListRequest{Route: route, Limit: listLimit, Before: cursor, IncludePayload: incP, IncludeHeaders: incH, IncludeTrace: incT})
+					return vList(r.Items, e)
+				case 18:
+					r, e := s.LookupMessages(MessageLookupRequest{IDs: []string{i1, i2, "m2"}})
+					return fmt.Sprint(r.Items, e)
+				case 19:
+					st, e := s.Stats()
+					return vStats(st, e)
+				case 20:
+					r, e := s.CancelMessagesByFilter(MessageManageFilterRequest{Route: route, State: manageState, Limit: listLimit, Before: cursor, PreviewOnly: preview})
+					return fmt.Sprint(r, e != nil)
+				case 21:
+					r, e := s.RequeueMessagesByFilter(MessageManageFilterRequest{Route: route, State: manageState, Limit: listLimit, Before: cursor, PreviewOnly: preview})
+					return fmt.Sprint(r, e != nil)
+				case 22:
+					r, e := s.ResumeMessagesByFilter(MessageManageFilterRequest{Route: route, State: manageState, Limit: listLimit, Before: cursor, PreviewOnly: preview})
+					return fmt.Sprint(r, e != nil)
 				case 15:
 					n, e := s.EnqueueBatch([]Envelope{{ID: newID, Route: "r1", Target: "t0"}, {ID: "n3", Route: "r0", Target: "t0", Payload: []byte("zz")}})
 					return fmt.Sprint(n) + vErr(e)
@@ -329,6 +377,7 @@ func TestVerifSQLModelDifferential(t *testing.T) {
 			before := vDumpModel()
 			a, b := run(real), run(model)
 			steps++
+			ranByOp[op]++
 			if a != b {
 				t.Fatalf("iteration %d step %d op %d args (%q,%q,%q,%q,%v): real SQLite answered %q, the model %q", it, step, op, l1, l2, i1, i2, d, a, b)
 			}
@@ -350,6 +399,12 @@ func TestVerifSQLModelDifferential(t *testing.T) {
 		real.Close()
 	}
 	for op, n := range changedByOp {
+		if op >= 16 && op <= 19 {
+			if ranByOp[op] == 0 {
+				t.Fatalf("validation is vacuous: read operation %d never ran", op)
+			}
+			continue // listings, lookups and statistics read (they change the table only through pruning)
+		}
 		if n == 0 && op != 2 { // (Extend only moves lease_until forward; with these tiny tables it may or may not)
 			t.Fatalf("validation is vacuous: operation %d never changed the table", op)
 		}
